@@ -6,7 +6,13 @@
 // op lines (also the input of the Lean driver `xvdriver qctree`); ids are small naturals, the
 // initial root is proposal 0 (view 0, no parent); `-` is the nil parent id:
 //
-//	reset                                  fresh tree: Genesis = Root = HighQC = CommitQC = proposal 0; pacemaker view 0
+//	reset                                  = reset 1 0: the tree common.InitQCTree builds on a fresh chain (ledger = genesis block only):
+//	                                       Genesis = Root = HighQC = CommitQC = proposal 0; pacemaker view 0       -> ok <dump>
+//	reset <start> <tip>                    the tree the REAL common.InitQCTree(start, ledger, log) builds from a ledger whose main chain
+//	                                       is the blocks of heights 0..tip (block of height h = proposal h, view h, parent h-1; block 0
+//	                                       has no parent): fresh start (tip <= start), restart at tip 0, 1, 2, >= 3, unusable start
+//	                                       heights (block start-1 not on the ledger: InitQCTree answers nil) -> ok <dump> | nil
+//	                                       after `nil` every op of the case answers `no-tree`
 //	ins <id> <view> <parent|-> <pview>     Smr.UpdateQcStatus(node) = updateQcStatus(node)   -> ok|err <dump>
 //	high <id>                              updateHighQC(id) (odd ids: via Smr.UpdateJustifyQcStatus) -> ok <dump>
 //	enforce <id>                           Smr.EnforceUpdateHighQC(id)     -> ok|err <dump>
@@ -27,16 +33,18 @@
 package main
 
 import (
-	"container/list"
 	"encoding/hex"
+	"errors"
 	"fmt"
 	"path/filepath"
 	"sort"
 	"strconv"
 	"strings"
 
+	common "github.com/xuperchain/xupercore/kernel/consensus/base/common"
 	bft "github.com/xuperchain/xupercore/kernel/consensus/base/driver/chained-bft"
 	bftpb "github.com/xuperchain/xupercore/kernel/consensus/base/driver/chained-bft/pb"
+	"github.com/xuperchain/xupercore/kernel/ledger"
 	"github.com/xuperchain/xupercore/lib/logs"
 	"xv/xvlib"
 )
@@ -81,6 +89,7 @@ type world struct {
 	pm   *bft.DefaultPaceMaker
 	smr  *bft.Smr // the public entry points used by tdpos/xpoa (UpdateQcStatus, UpdateJustifyQcStatus, EnforceUpdateHighQC) go through it
 	// oracle bookkeeping (per case)
+	start, tip int        // the ledger the tree was initialised from: consensus start height, tip height (blocks 0..tip)
 	gone     map[int]bool // ids that were stored and legitimately dropped (pruned by commit / expired orphan)
 	accepted map[int]bool // ids whose ins returned ok
 	ops      []string
@@ -93,18 +102,70 @@ var (
 	info   = func(string) {} // statistics that are not violations
 )
 
-func newWorld() *world {
-	initQC := &bft.QuorumCert{
-		VoteInfo:         &bft.VoteInfo{ProposalId: idBytes(0), ProposalView: 0},
-		LedgerCommitInfo: &bft.LedgerCommitInfo{CommitStateId: idBytes(0)},
+// ---------------------------------------------------------------- the ledger InitQCTree reads
+
+// fakeBlock / fakeLedger: a main chain of blocks 0..tip; the block of height h has id idBytes(h) and
+// PreHash idBytes(h-1) (none for h = 0). Heights outside 0..tip are not found, as in the real ledger.
+type fakeBlock struct{ h int64 }
+
+func (b *fakeBlock) GetProposer() []byte { return []byte("xv-miner") }
+func (b *fakeBlock) GetHeight() int64   { return b.h }
+func (b *fakeBlock) GetBlockid() []byte { return idBytes(int(b.h)) }
+func (b *fakeBlock) GetConsensusStorage() ([]byte, error) {
+	return nil, errors.New("no consensus storage")
+}
+func (b *fakeBlock) GetTimestamp() int64                          { return b.h }
+func (b *fakeBlock) SetItem(item string, value interface{}) error { return nil }
+func (b *fakeBlock) MakeBlockId() ([]byte, error)                 { return b.GetBlockid(), nil }
+func (b *fakeBlock) GetPreHash() []byte {
+	if b.h == 0 {
+		return nil
 	}
-	root := &bft.ProposalNode{In: initQC}
-	tree := &bft.QCPendingTree{Genesis: root, Root: root, HighQC: root, CommitQC: root,
-		OrphanList: list.New(), OrphanMap: map[string]bool{}, Log: logger}
-	pm := &bft.DefaultPaceMaker{}
+	return idBytes(int(b.h - 1))
+}
+func (b *fakeBlock) GetNextHash() []byte { return nil }
+func (b *fakeBlock) GetPublicKey() string { return "" }
+func (b *fakeBlock) GetSign() []byte      { return nil }
+func (b *fakeBlock) GetTxIDs() []string   { return nil }
+func (b *fakeBlock) GetInTrunk() bool     { return true }
+
+type fakeLedger struct{ tip int64 }
+
+var errNoBlock = errors.New("block not found")
+
+func (l *fakeLedger) GetConsensusConf() ([]byte, error) { return nil, errNoBlock }
+func (l *fakeLedger) QueryBlock(id []byte) (ledger.BlockHandle, error) {
+	return l.QueryBlockByHeight(int64(idNum(id)))
+}
+func (l *fakeLedger) QueryBlockByHeight(h int64) (ledger.BlockHandle, error) {
+	if h < 0 || h > l.tip {
+		return nil, errNoBlock
+	}
+	return &fakeBlock{h: h}, nil
+}
+func (l *fakeLedger) GetTipBlock() ledger.BlockHandle { return &fakeBlock{h: l.tip} }
+func (l *fakeLedger) GetTipXMSnapshotReader() (ledger.XMSnapshotReader, error) {
+	return nil, errNoBlock
+}
+func (l *fakeLedger) CreateSnapshot(blkId []byte) (ledger.XMReader, error) { return nil, errNoBlock }
+func (l *fakeLedger) GetTipSnapshot() (ledger.XMReader, error)             { return nil, errNoBlock }
+
+// newWorld builds the case's tree with the real InitQCTree; status "nil" = no tree, "panic".
+func newWorld(start, tip int) (x *world, status string) {
+	x = &world{gone: map[int]bool{}, accepted: map[int]bool{}, start: start, tip: tip, pm: &bft.DefaultPaceMaker{}}
+	defer func() {
+		if r := recover(); r != nil {
+			x.tree, x.smr, status = nil, nil, "panic"
+		}
+	}()
+	tree := common.InitQCTree(int64(start), &fakeLedger{tip: int64(tip)}, logger)
+	if tree == nil {
+		return x, "nil"
+	}
+	x.tree = tree
 	// no network, no crypto, no election: the ops below never reach them
-	smr := bft.NewSmr("xv", "xv-node", logger, nil, nil, pm, &bft.DefaultSaftyRules{QcTree: tree, Log: logger}, nil, tree)
-	return &world{tree: tree, pm: pm, smr: smr, gone: map[int]bool{}, accepted: map[int]bool{}}
+	x.smr = bft.NewSmr("xv", "xv-node", logger, nil, nil, x.pm, &bft.DefaultSaftyRules{QcTree: tree, Log: logger}, nil, tree)
+	return x, "ok"
 }
 
 // snap is what the oracle and the canonical dump are computed from.
@@ -125,13 +186,41 @@ type snap struct {
 	genesis                       int
 	markerViews                   map[string]int64
 	kids                          map[int][]int // sons of every node object of the tree below Root
+	mainObjs                      map[*bft.ProposalNode]bool // the node objects reachable from Root
+	nilSons                       []int                      // ids of node objects whose Sons slice holds a nil pointer
+	noOrphanStore                 bool                       // OrphanList or OrphanMap is nil: the first orphan panics
+}
+
+// dumpWalk = QCPendingTree.VerifDump of the export shim (preorder over Root and every orphan root, the order of
+// DFSQuery, bounded), done here over the exported fields so that a tree without an orphan list can still be walked.
+func dumpWalk(t *bft.QCPendingTree, limit int) []bft.VerifDumpNode {
+	var res []bft.VerifDumpNode
+	var walk func(n, parent *bft.ProposalNode, orphan bool, depth int)
+	walk = func(n, parent *bft.ProposalNode, orphan bool, depth int) {
+		if n == nil || len(res) >= limit {
+			return
+		}
+		res = append(res, bft.VerifDumpNode{Node: n, Parent: parent, Orphan: orphan, Depth: depth})
+		for _, c := range n.Sons {
+			walk(c, n, orphan, depth+1)
+		}
+	}
+	walk(t.Root, nil, false, 0)
+	if t.OrphanList != nil {
+		for e := t.OrphanList.Front(); e != nil; e = e.Next() {
+			if n, ok := e.Value.(*bft.ProposalNode); ok {
+				walk(n, nil, true, 0)
+			}
+		}
+	}
+	return res
 }
 
 const walkLimit = 4000
 
 func takeSnap(x *world) *snap {
 	t := x.tree
-	s := &snap{mainCnt: map[int]int{}, orphCnt: map[int]int{}, view: map[int]int64{}, parentID: map[int]int{}, orphRootOf: map[int]int{}, kids: map[int][]int{}}
+	s := &snap{mainCnt: map[int]int{}, orphCnt: map[int]int{}, view: map[int]int64{}, parentID: map[int]int{}, orphRootOf: map[int]int{}, kids: map[int][]int{}, mainObjs: map[*bft.ProposalNode]bool{}}
 	s.root, s.high, s.gen, s.lock, s.commit = nodeID(t.Root), nodeID(t.HighQC), nodeID(t.GenericQC), nodeID(t.LockedQC), nodeID(t.CommitQC)
 	s.genesis = nodeID(t.Genesis)
 	if t.HighQC != nil {
@@ -141,8 +230,9 @@ func takeSnap(x *world) *snap {
 		s.rootView = t.Root.In.GetProposalView()
 	}
 	s.pmView = x.pm.GetCurrentView()
-	walk := t.VerifDump(walkLimit)
+	walk := dumpWalk(t, walkLimit)
 	s.truncated = len(walk) >= walkLimit
+	s.noOrphanStore = t.OrphanList == nil || t.OrphanMap == nil
 	curRoot := -1
 	for _, d := range walk {
 		id := nodeID(d.Node)
@@ -157,6 +247,13 @@ func takeSnap(x *world) *snap {
 			s.orphCnt[id]++
 		} else {
 			s.mainCnt[id]++
+			s.mainObjs[d.Node] = true
+		}
+		for _, c := range d.Node.Sons {
+			if c == nil {
+				s.nilSons = append(s.nilSons, id)
+				break
+			}
 		}
 		if _, ok := s.view[id]; !ok {
 			s.view[id] = d.Node.In.GetProposalView()
@@ -268,6 +365,12 @@ func check(x *world, op []string, okAns bool, before, after *snap) []viol {
 			add("id-stored-twice:orphan", "proposal %d occurs %d times in the orphan forest", id, after.orphCnt[id])
 		}
 	}
+	for _, id := range after.nilSons {
+		add("nil-son", "the Sons slice of node %d holds a nil pointer", id)
+	}
+	if after.noOrphanStore {
+		add("orphan-store-missing", "OrphanList / OrphanMap of the tree is nil: a proposal whose parent has not arrived cannot be stored")
+	}
 	// 2. every non-root node hangs under the node its ParentId names
 	for _, e := range after.edgeBad {
 		add("parent-edge-mismatch", "node %s", e)
@@ -353,19 +456,30 @@ func check(x *world, op []string, okAns bool, before, after *snap) []viol {
 			}
 		}
 	}
-	// (not part of C15 as written, counted only: a marker pointing at a node that updateCommit pruned)
-	for _, m := range []int{after.high, after.gen, after.lock, after.commit} {
-		if m >= 0 && after.mainCnt[m] == 0 {
-			info("info:marker-outside-tree")
-			break
+	// a marker is a node OBJECT of the tree below Root. The only way out of the tree is updateCommit's pruning (its own
+	// TODO; C15 as written does not ask the markers to follow the root: counted only); a marker that is outside the tree
+	// and was never pruned was never linked into it.
+	for _, m := range []struct {
+		name string
+		n    *bft.ProposalNode
+	}{{"high", x.tree.HighQC}, {"generic", x.tree.GenericQC}, {"locked", x.tree.LockedQC}, {"commit", x.tree.CommitQC}} {
+		if m.n == nil || after.mainObjs[m.n] {
+			continue
 		}
+		if x.gone[nodeID(m.n)] {
+			info("info:marker-outside-tree")
+			continue
+		}
+		add("marker-outside-tree:"+m.name, "the %s marker (proposal %d) is not a node of the tree below Root %d and was not pruned by a commit", m.name, nodeID(m.n), after.root)
 	}
 	// the public accessors of Smr report the same markers as the tree
-	if hq := x.smr.GetHighQC(); hq == nil || idNum(hq.GetProposalId()) != after.high {
-		add("smr-accessor-mismatch", "Smr.GetHighQC disagrees with the tree's HighQC %d", after.high)
-	}
-	if gq := x.smr.GetGenericQC(); (gq == nil) != (after.gen < 0) || (gq != nil && idNum(gq.GetProposalId()) != after.gen) {
-		add("smr-accessor-mismatch", "Smr.GetGenericQC disagrees with the tree's GenericQC %s", optStr(after.gen))
+	if after.high >= 0 {
+		if hq := x.smr.GetHighQC(); hq == nil || idNum(hq.GetProposalId()) != after.high {
+			add("smr-accessor-mismatch", "Smr.GetHighQC disagrees with the tree's HighQC %d", after.high)
+		}
+		if gq := x.smr.GetGenericQC(); (gq == nil) != (after.gen < 0) || (gq != nil && idNum(gq.GetProposalId()) != after.gen) {
+			add("smr-accessor-mismatch", "Smr.GetGenericQC disagrees with the tree's GenericQC %s", optStr(after.gen))
+		}
 	}
 	// 6. HighQC view never decreases except by explicit rollback
 	if op[0] != "enforce" && op[0] != "reset" && after.highView < before.highView {
@@ -387,6 +501,75 @@ func check(x *world, op []string, okAns bool, before, after *snap) []viol {
 		if after.pmView < v+1 {
 			add("pacemaker-behind", "pacemaker view %d after a certificate of view %d", after.pmView, v)
 		}
+	}
+	return vs
+}
+
+// checkInit evaluates C15 on the tree InitQCTree built from the ledger 0..tip (block h = proposal h): the structure every
+// later step starts from must already be "a tree rooted at the last committed proposal in which every accepted proposal
+// is stored", with the certified marker where the ledger says it is. (The forest / parent-edge / marker-ancestor /
+// marker-inside-tree clauses are evaluated by check on the same snapshot.)
+func checkInit(x *world, s *snap) []viol {
+	var vs []viol
+	add := func(key, f string, a ...interface{}) { vs = append(vs, viol{key, fmt.Sprintf(f, a...)}) }
+	start, tip := x.start, x.tip
+	if s.truncated {
+		return vs
+	}
+	if s.root < 0 {
+		add("init:no-root", "InitQCTree(start %d, tip %d) built a tree without Root", start, tip)
+		return vs
+	}
+	// every node is a block of the ledger with that block's view (= height) and parent id
+	var ids []int
+	for id := range s.mainCnt {
+		ids = append(ids, id)
+	}
+	for id := range s.orphCnt {
+		ids = append(ids, id)
+	}
+	sort.Ints(ids)
+	for _, id := range ids {
+		switch {
+		case id < 0 || id > tip:
+			add("init:node-not-on-ledger", "node %d of the initial tree is not a block of the ledger 0..%d", id, tip)
+		case s.view[id] != int64(id):
+			add("init:node-content", "node of block %d has view %d", id, s.view[id])
+		case id != s.root && s.parentID[id] != id-1:
+			add("init:node-content", "node of block %d has ParentId %s", id, optStr(s.parentID[id]))
+		case id == s.root && s.parentID[id] >= 0 && s.parentID[id] != id-1:
+			add("init:node-content", "Root (block %d) has ParentId %s", id, optStr(s.parentID[id]))
+		}
+	}
+	if len(s.orphRoots) > 0 {
+		add("init:orphans", "the initial tree has orphans %v", s.orphRoots)
+	}
+	if s.root > tip {
+		return vs
+	}
+	// rooted at the last committed proposal: never above it (nothing below Root can be rolled back). On a restart the
+	// tip carries the certificate of tip-1, so tip-3 heads a certified three-chain; blocks below the consensus start
+	// height are final by decree.
+	committed := tip - 3
+	if start-1 > committed {
+		committed = start - 1
+	}
+	if committed < 0 {
+		committed = 0
+	}
+	if s.root > committed {
+		add("init:root-above-committed", "Root is block %d but the last committed block of a ledger with tip %d (consensus start %d) is %d", s.root, tip, start, committed)
+	}
+	// every accepted proposal is stored: the blocks above Root up to the tip are nodes of the tree
+	for h := s.root + 1; h <= tip; h++ {
+		if s.mainCnt[h] == 0 {
+			add("init:ledger-block-missing", "block %d of the ledger (Root %d, tip %d) is not a node of the initial tree", h, s.root, tip)
+			break
+		}
+	}
+	// the highest-certified marker is not behind the ledger: the tip block carries the certificate of its parent
+	if s.high >= 0 && s.high <= tip && s.high < tip-1 {
+		add("init:highqc-behind-ledger", "HighQC is block %d but the tip %d certifies block %d", s.high, tip, tip-1)
 	}
 	return vs
 }
@@ -485,19 +668,59 @@ func apply(x *world, f []string) (status string) {
 }
 
 // step executes one op line on the current case; returns the canonical answer and the violations.
-func step(line string) (string, []viol) {
+func step(line string) (ans string, vs []viol) {
+	defer func() {
+		// the structure could not even be walked / judged: a violation with the case so far as the failing input
+		if r := recover(); r != nil {
+			if w != nil && (len(w.ops) == 0 || w.ops[len(w.ops)-1] != line) {
+				w.ops = append(w.ops, line)
+			}
+			ans, vs = "unwalkable", []viol{{"structure-unwalkable", fmt.Sprintf("walking / judging the structure after `%s` panicked: %v", line, r)}}
+		}
+	}()
 	f := strings.Fields(line)
 	if len(f) == 0 {
 		return "bad-op", nil
 	}
-	if f[0] == "reset" && len(f) == 1 {
-		w = newWorld()
+	if f[0] == "reset" && (len(f) == 1 || len(f) == 3) {
+		start, tip := 1, 0
+		if len(f) == 3 {
+			var e1, e2 error
+			start, e1 = strconv.Atoi(f[1])
+			tip, e2 = strconv.Atoi(f[2])
+			if e1 != nil || e2 != nil || start < 0 || tip < 0 {
+				return "bad-op", nil
+			}
+		}
+		var st string
+		w, st = newWorld(start, tip)
+		w.ops = []string{line}
+		if st != "ok" {
+			w.impl = []string{st}
+			if st == "panic" {
+				vs = append(vs, viol{"init:panic", fmt.Sprintf("InitQCTree(start %d, ledger 0..%d) panicked", start, tip)})
+			} else if start >= 1 && start-1 <= tip {
+				vs = append(vs, viol{"init:no-tree", fmt.Sprintf("InitQCTree(start %d, ledger 0..%d) returned no tree although block %d is on the ledger", start, tip, start-1)})
+			}
+			return st, vs
+		}
 		s := takeSnap(w)
-		w.ops, w.impl = []string{line}, []string{"ok " + s.dump()}
-		return "ok " + s.dump(), check(w, f, true, s, s)
+		w.impl = []string{"ok " + s.dump()}
+		vs = check(w, f, true, s, s)
+		if !(start >= 1 && start-1 <= tip) {
+			vs = append(vs, viol{"init:tree-without-genesis-block", fmt.Sprintf("InitQCTree(start %d, ledger 0..%d) built a tree although block %d is not on the ledger", start, tip, start-1)})
+		}
+		return "ok " + s.dump(), append(vs, checkInit(w, s)...)
 	}
 	if w == nil {
-		w = newWorld()
+		w, _ = newWorld(1, 0)
+	}
+	if w.tree == nil {
+		switch f[0] {
+		case "dump", "ins", "prop", "high", "vote", "enforce", "commit", "pm":
+			return "no-tree", nil
+		}
+		return "bad-op", nil
 	}
 	if f[0] == "dump" && len(f) == 1 {
 		s := takeSnap(w)
@@ -509,7 +732,6 @@ func step(line string) (string, []viol) {
 		return "bad-op", nil
 	}
 	after := takeSnap(w)
-	var ans string
 	if f[0] == "pm" {
 		ans = fmt.Sprintf("view %d", after.pmView)
 	} else {
@@ -517,7 +739,6 @@ func step(line string) (string, []viol) {
 	}
 	w.ops = append(w.ops, line)
 	w.impl = append(w.impl, ans)
-	var vs []viol
 	if st == "panic" {
 		vs = append(vs, viol{"panic", "the operation panicked"})
 	}
@@ -567,13 +788,26 @@ func (p prop) ins() string {
 	return fmt.Sprintf("ins %d %d %d %d", p.id, p.view, p.parent, p.pview)
 }
 
-// randomTree grows a block tree of n proposals below proposal 0.
-func randomTree(r *xvlib.Rng, n int, chainBias int) []prop {
+// chainProps: the blocks 0..tip of the ledger a case was initialised from (block h = proposal h, view h, parent h-1).
+func chainProps(tip int) []prop {
 	ps := []prop{{id: 0, parent: -1}}
+	for h := 1; h <= tip; h++ {
+		ps = append(ps, prop{id: h, parent: h - 1, view: int64(h), pview: int64(h - 1), depth: h})
+	}
+	return ps
+}
+
+// randomTree grows a block tree of n new proposals (ids tip+1..tip+n) below the ledger chain 0..tip: a new proposal
+// hangs under the latest proposal, under any earlier new proposal or under any block of the ledger (also one that the
+// initial tree does not hold any more).
+func randomTree(r *xvlib.Rng, n int, chainBias int, tip int) []prop {
+	ps := chainProps(tip)
 	for i := 1; i <= n; i++ {
 		var par prop
 		if r.Intn(100) < chainBias {
 			par = ps[len(ps)-1]
+		} else if tip > 0 && r.Chance(1, 3) {
+			par = ps[max(0, tip-r.Intn(5))] // near the tip of the ledger
 		} else {
 			par = ps[r.Intn(len(ps))]
 		}
@@ -581,9 +815,9 @@ func randomTree(r *xvlib.Rng, n int, chainBias int) []prop {
 		if r.Chance(1, 8) {
 			v += int64(r.Intn(3))
 		}
-		ps = append(ps, prop{id: i, parent: par.id, view: v, pview: par.view, depth: par.depth + 1})
+		ps = append(ps, prop{id: tip + i, parent: par.id, view: v, pview: par.view, depth: par.depth + 1})
 	}
-	return ps[1:]
+	return ps[tip+1:]
 }
 
 func perm(r *xvlib.Rng, n int) []int {
@@ -600,7 +834,21 @@ func perm(r *xvlib.Rng, n int) []int {
 
 func randomCase(r *xvlib.Rng) []string {
 	n := 3 + r.Intn(10)
-	ps := randomTree(r, n, []int{30, 60, 85}[r.Intn(3)])
+	// one case in three starts from the tree InitQCTree builds from a ledger with blocks 0..tip
+	reset, tip := "reset", 0
+	if r.Chance(1, 3) {
+		tip = r.Intn(9)
+		start := 1 + r.Intn(tip+1)
+		if r.Chance(1, 12) {
+			start = []int{0, tip + 2, tip + 3}[r.Intn(3)]
+		}
+		reset = fmt.Sprintf("reset %d %d", start, tip)
+		if start < 1 || start > tip+1 {
+			return []string{reset, "dump"}
+		}
+	}
+	ps := randomTree(r, n, []int{30, 60, 85}[r.Intn(3)], tip)
+	all := append(chainProps(tip)[1:], ps...) // what can be (re-)delivered: the ledger's blocks (with a parent) too
 	// arrival order: a permutation, locally perturbed from "parents first" with varying disorder
 	order := make([]int, n)
 	for i := range order {
@@ -620,11 +868,14 @@ func randomCase(r *xvlib.Rng) []string {
 			order[i], order[j] = order[j], order[i]
 		}
 	}
-	ops := []string{"reset"}
+	ops := []string{reset}
 	var arrived []int
+	for h := max(0, tip-4); h <= tip && tip > 0; h++ {
+		arrived = append(arrived, h)
+	}
 	pick := func() int {
 		if len(arrived) == 0 || r.Chance(1, 10) {
-			return r.Intn(n + 2)
+			return r.Intn(tip + n + 2)
 		}
 		if r.Chance(1, 2) {
 			return arrived[len(arrived)-1-r.Intn(min(3, len(arrived)))]
@@ -652,8 +903,8 @@ func randomCase(r *xvlib.Rng) []string {
 				ops = append(ops, fmt.Sprintf("enforce %d", pick()))
 			case 7:
 				ops = append(ops, fmt.Sprintf("pm %d", r.Intn(12)))
-			default: // duplicate arrival
-				ops = append(ops, ps[r.Intn(n)].ins())
+			default: // duplicate arrival (of a new proposal or of a block of the ledger)
+				ops = append(ops, all[r.Intn(len(all))].ins())
 			}
 		}
 	}
@@ -671,53 +922,126 @@ func randomCase(r *xvlib.Rng) []string {
 
 // exhaustive: every block tree of n proposals (parent vector) x every arrival order, followed by
 // certification and commit of the deepest proposal and a full re-delivery.
-func exhaustive(n int, f func([]string)) {
-	parents := make([]int, n+1)
-	var permute func(a []int, k int, g func([]int))
-	permute = func(a []int, k int, g func([]int)) {
-		if k == len(a) {
-			g(a)
-			return
-		}
-		for i := k; i < len(a); i++ {
-			a[k], a[i] = a[i], a[k]
-			permute(a, k+1, g)
-			a[k], a[i] = a[i], a[k]
-		}
+func exhaustive(n int, f func([]string)) { exhaustiveFrom("reset", 0, 0, n, f) }
+
+func permute(a []int, k int, g func([]int)) {
+	if k == len(a) {
+		g(a)
+		return
 	}
+	for i := k; i < len(a); i++ {
+		a[k], a[i] = a[i], a[k]
+		permute(a, k+1, g)
+		a[k], a[i] = a[i], a[k]
+	}
+}
+
+// exhaustiveFrom: the case starts with the line `reset` (a tree over the ledger 0..tip); the n new proposals
+// tip+1..tip+n hang under the ledger blocks lo..tip or under each other in every possible way and arrive in every order.
+func exhaustiveFrom(reset string, lo, tip, n int, f func([]string)) {
+	parents := make([]int, n+1) // parents[i] = id of the parent of proposal tip+i
 	var rec func(i int)
 	rec = func(i int) {
 		if i > n {
-			depth := make([]int, n+1)
-			deepest := 0
+			depth := map[int]int{}
+			for h := 0; h <= tip; h++ {
+				depth[h] = h
+			}
+			deepest := tip
 			for j := 1; j <= n; j++ {
-				depth[j] = depth[parents[j]] + 1
-				if depth[j] > depth[deepest] {
-					deepest = j
+				depth[tip+j] = depth[parents[j]] + 1
+				if depth[tip+j] > depth[deepest] {
+					deepest = tip + j
 				}
+			}
+			ins := func(id int) string {
+				if id <= tip {
+					return fmt.Sprintf("ins %d %d %s %d", id, id, optStr(id-1), max(0, id-1))
+				}
+				return fmt.Sprintf("ins %d %d %d %d", id, depth[id], parents[id-tip], depth[id]-1)
 			}
 			ids := make([]int, n)
 			for j := range ids {
-				ids[j] = j + 1
+				ids[j] = tip + j + 1
 			}
 			permute(ids, 0, func(o []int) {
-				ops := []string{"reset"}
+				ops := []string{reset}
 				for _, j := range o {
-					ops = append(ops, fmt.Sprintf("ins %d %d %d %d", j, depth[j], parents[j], depth[j]-1))
+					ops = append(ops, ins(j))
 				}
 				ops = append(ops, fmt.Sprintf("high %d", deepest), fmt.Sprintf("commit %d", deepest))
-				ops = append(ops, fmt.Sprintf("ins %d %d %d %d", o[0], depth[o[0]], parents[o[0]], depth[o[0]]-1))
+				ops = append(ops, ins(o[0]))
+				if tip > 0 { // the ledger's tip is confirmed once more; explicit rollback to it
+					ops = append(ops, ins(tip), fmt.Sprintf("enforce %d", tip))
+				}
 				ops = append(ops, fmt.Sprintf("high %d", o[n-1]))
 				f(ops)
 			})
 			return
 		}
-		for p := 0; p < i; p++ {
+		for p := lo; p < tip+i; p++ {
 			parents[i] = p
 			rec(i + 1)
 		}
 	}
 	rec(1)
+}
+
+// exhaustiveInit: InitQCTree for every ledger height 0..maxTip and every consensus start height 0..tip+2 (fresh start,
+// restart at tip 0, 1, 2, >= 3, start heights whose predecessor block is not on the ledger), each continued with
+// (a) the chain growing by six proposals through proposal-with-commit / certification steps (the root has to move),
+// (b) a rollback to every block of the ledger, (c) every tree of <= n new proposals below the last five ledger blocks
+// in every arrival order (exhaustiveFrom; n+1 proposals for tip <= deepTip).
+func exhaustiveInit(maxTip, n, deepTip int, f func([]string)) {
+	for tip := 0; tip <= maxTip; tip++ {
+		for start := 0; start <= tip+2; start++ {
+			reset := fmt.Sprintf("reset %d %d", start, tip)
+			if start < 1 || start > tip+1 {
+				f([]string{reset, "dump"})
+				continue
+			}
+			ops := []string{reset}
+			for k := 1; k <= 6; k++ {
+				id := tip + k
+				if k%2 == 1 {
+					ops = append(ops, fmt.Sprintf("prop %d %d %d %d 1", id, id, id-1, id-1))
+				} else {
+					ops = append(ops, fmt.Sprintf("ins %d %d %d %d", id, id, id-1, id-1), fmt.Sprintf("commit %d", id))
+				}
+				ops = append(ops, fmt.Sprintf("vote %d", id))
+			}
+			f(ops)
+			ops = []string{reset}
+			for h := tip; h >= 0; h-- {
+				ops = append(ops, fmt.Sprintf("enforce %d", h), fmt.Sprintf("high %d", h))
+			}
+			ops = append(ops, fmt.Sprintf("ins %d %d %d %d", tip+1, tip+1, tip, tip), fmt.Sprintf("high %d", tip+1))
+			f(ops)
+			for m := 1; m <= n || (m == n+1 && tip <= deepTip); m++ {
+				exhaustiveFrom(reset, max(0, tip-4), tip, m, f)
+			}
+		}
+	}
+}
+
+func max(a, b int) int {
+	if a > b {
+		return a
+	}
+	return b
+}
+
+// initKind names the branch of InitQCTree a case went through (statistics only).
+func initKind(x *world) string {
+	switch {
+	case x.tree == nil:
+		return "nil"
+	case x.tip <= x.start:
+		return fmt.Sprintf("fresh:tip=start%+d", x.tip-x.start)
+	case x.tip < 3:
+		return fmt.Sprintf("restart:tip=%d", x.tip)
+	}
+	return "restart:tip>=3"
 }
 
 func min(a, b int) int {
@@ -761,6 +1085,13 @@ func main() {
 	runCaseOut := func(ops []string) {
 		for _, l := range ops {
 			runLine(l)
+		}
+		if f := strings.Fields(ops[0]); len(f) == 3 {
+			out.Count("case:init:" + initKind(w))
+		}
+		if w.tree == nil {
+			out.Case(strings.Join(ops, ";"), false)
+			return
 		}
 		s := takeSnap(w)
 		nontrivial := len(s.orphRoots) > 0 || len(w.gone) > 0 || s.root != 0 || len(s.mainCnt) > 2
@@ -811,9 +1142,9 @@ func main() {
 		out.Count("corpus-file")
 	}
 	rng := xvlib.NewRng(args.Seed)
-	exN, randCases := 5, 20000
+	exN, randCases, initTip, initN, initDeep := 5, 20000, 7, 3, -1
 	if args.Tier == "thorough" {
-		exN, randCases = 6, 150000
+		exN, randCases, initTip, initN, initDeep = 6, 150000, 9, 3, 5
 	}
 	if v := xvlib.EnvInt("XV_QCTREE_EXN", 0); v > 0 {
 		exN = v
@@ -821,6 +1152,7 @@ func main() {
 	for n := 1; n <= exN; n++ {
 		exhaustive(n, runCaseOut)
 	}
+	exhaustiveInit(initTip, initN, initDeep, runCaseOut)
 	for i := 0; i < randCases; i++ {
 		ops := randomCase(rng)
 		runCaseOut(ops)
@@ -829,5 +1161,9 @@ func main() {
 		}
 	}
 	out.Stats.Exhaustive = false
-	out.Stats.Rule = fmt.Sprintf("every block tree of n ≤ %d proposals (all parent vectors) × every arrival order (n! permutations), each followed by certification and commit of the deepest proposal, one duplicate arrival and one more certification; plus %d random cases: block trees of 3..12 proposals (chain bias 30/60/85%%, occasional view gaps), arrival orders from parents-first to children-first to uniformly random, interleaved updateHighQC / vote-quorum / updateCommit / enforceUpdateHighQC / pacemaker / duplicate arrivals / proposal-with-commit ops and a full re-delivery; after EVERY op the full dump is compared with the model and the C15 oracle is evaluated on the real pointer structure; a case is non-trivial if it ends with orphans, a moved root, pruned/expired proposals or ≥ 3 tree nodes; distinct by op list", exN, randCases)
+	deepNote := ""
+	if initDeep >= 0 {
+		deepNote = fmt.Sprintf(" (%d for tip ≤ %d)", initN+1, initDeep)
+	}
+	out.Stats.Rule = fmt.Sprintf("InitQCTree (the real function over a ledger of blocks 0..tip) for every tip ≤ %d × every start height 0..tip+2, each continued with chain growth through proposal-with-commit steps, rollbacks to every ledger block and every tree of ≤ %d new proposals%s below the last five ledger blocks in every arrival order; one random case in three starts from such a tree (tip ≤ 8); ", initTip, initN, deepNote) + fmt.Sprintf("every block tree of n ≤ %d proposals (all parent vectors) × every arrival order (n! permutations), each followed by certification and commit of the deepest proposal, one duplicate arrival and one more certification; plus %d random cases: block trees of 3..12 proposals (chain bias 30/60/85%%, occasional view gaps), arrival orders from parents-first to children-first to uniformly random, interleaved updateHighQC / vote-quorum / updateCommit / enforceUpdateHighQC / pacemaker / duplicate arrivals / proposal-with-commit ops and a full re-delivery; after EVERY op the full dump is compared with the model and the C15 oracle is evaluated on the real pointer structure; a case is non-trivial if it ends with orphans, a moved root, pruned/expired proposals or ≥ 3 tree nodes; distinct by op list", exN, randCases)
 }
